@@ -841,7 +841,9 @@ def _unify_var(
         t = t.transform(Substituter(subst))
     if var in t.unsolved_vars:
         return None
-    return {var: t, **subst}
+    # Keep the substitution idempotent: solutions found earlier may mention `var`
+    solve_var = Substituter({var: t})
+    return {var: t, **{x: u.transform(solve_var) for x, u in subst.items()}}
 
 
 def _unify_args(
